@@ -17,7 +17,8 @@ structure ElfFile where
   le : Bool
   S : ElfStructs
   header : Val
-  /-- header of the section-name string table, `none` when it lies beyond the stream -/
+  /-- header of the section-name string table; `none` when the file has none (`e_shstrndx` =
+      SHN_UNDEF) or when it lies beyond the stream -/
   shstr : Option Val
 
 /-- `ELFFile._identify_file` -/
@@ -107,10 +108,14 @@ def getString (strtab : Val) (offset : Nat) : R Bytes := do
   | some s => return s
   | none => return []
 
-/-- `_get_section_name(section_header)` -/
+/-- `_get_section_name(section_header)`.  Without a name table object: the file has none when
+    `get_shstrndx()` is SHN_UNDEF (gABI) — its sections bear the empty name, `section_header` is not
+    looked at —; otherwise the index was given and its header lies beyond the stream -/
 def getSectionName (shstr : Option Val) (sh : Option Val) : R Bytes := do
   match shstr with
-  | none => throw .elfParseError
+  | none =>
+    if (← getShstrndx env S data hdr) == 0 then return []
+    throw .elfParseError
   | some st =>
     let off ← (← subscript sh "sh_name").asNat
     getString data st off
@@ -122,7 +127,7 @@ def isStr (v : Val) (s : String) : Bool := match v with | .str x => x == s | _ =
 def makeSection (shstr : Option Val) : Nat → Option Val → R (String × Bytes)
   | 0, _ => .error .outOfFuel
   | fuel+1, osh => do
-    let name ← getSectionName data shstr osh
+    let name ← getSectionName env S data hdr shstr osh
     let some sh := osh | throw .typeError
     let ty ← sh.getField "sh_type"
     let link ← sh.getNat "sh_link"
@@ -267,6 +272,8 @@ def openElf (env : Env) (structsFor : ElfCfg → Option ElfStructs) (machineClas
   let some S := structsFor cfg | throw .notImplemented
   -- _get_section_header_stringtable
   let ndx ← getShstrndx env S data hdr
+  -- SHN_UNDEF: "the file has no section name string table" (gABI); section 0 is not looked at
+  if ndx == 0 then return { data, cls, le, S, header := hdr, shstr := none }
   let sh ← getSectionHeader env S data hdr ndx
   match sh with
   | none => return { data, cls, le, S, header := hdr, shstr := none }
